@@ -80,9 +80,10 @@ ASSUMPTIONS = [
     "the emitter named in a signature is the class of the target of the event being processed; for repo generator APIs running "
     "inside a harness client process it is the repo class owning the innermost suspended generator frame, else the (repo) class "
     "the pushed event is addressed to, else the driver's subject class",
-    "periodic timers are configured with strictly positive intervals (a zero interval for a periodic check is a meaningless "
-    "configuration, not a component defect); zero is generated for latencies, lead times, patience and retry back-off where the "
-    "constructor accepts it",
+    "boundary values: in 35 % of the runs 1-2 numeric parameters are replaced by 0 or the smallest positive value; the repo "
+    "constructor decides whether that is legal (ValueError -> the run uses the unmodified configuration). A periodic timer with a "
+    "zero period that the constructor accepts and the docstring does not exclude is judged like any other configuration "
+    "(signatures of such runs carry /bv:<param>=<value>)",
     "events a component hands out for scheduling (start(), warmup(), start_warming(), prime_poll(), schedule_redelivery(), "
     "release()) count as emitted by it at the instant user code schedules them; calling such an API while the simulation runs "
     "is taken to be within contract (nothing in the docstrings restricts them to time zero)",
@@ -120,7 +121,7 @@ def gen(rng, tier):
         cands = zoo.bv_candidates(sc["cfg"])
         for _ in range(rng.choice([1, 1, 2])):
             if cands:
-                path, old = cands[rng.randrange(len(cands))]
+                path, old = cands.pop(rng.randrange(len(cands)))
                 if isinstance(old, float):
                     sc["bv"].append([path, rng.choice([0.0, 0.0, 0.000001])])
                 else:
@@ -165,7 +166,21 @@ def run(sc):
             zoo.LENIENT[0] = False
     if out is None:
         z = zoo.Zoo(sc, subject=d["classes"][0], classes=d["classes"])
-        out = z.execute(d["build"], sc["cfg"])
+        try:
+            out = z.execute(d["build"], sc["cfg"])
+        except InvalidScenario:
+            if bv_state != "refused":
+                raise
+            # a minimised replay whose boundary value is refused by the (since fixed) constructor and whose shrunk base
+            # configuration is not runnable on its own: nothing to judge
+            return result(sig=None, msg="boundary value refused by the constructor; base configuration not runnable",
+                          digest="refused", nontrivial=False, counters={"probe.boundary_value_refused": 1},
+                          klass=d["name"], extra={"all_sigs": [], "status": "refused", "max_same_t": 0})
+    if bv_state == "accepted" and z.violations:
+        # boundary-value runs carry the replaced parameters in the signature, so that e.g. a zero heartbeat interval
+        # (a configuration matter) and a heartbeat re-armed at now+0 by the code never share a signature
+        tag = "/bv:" + ",".join(sorted(f"{next((p for p in reversed(path) if isinstance(p, str)), '?')}={value}" for path, value in bv))
+        z.violations = [(s_ + tag, m_ + f" [boundary values {bv}]") for s_, m_ in z.violations]
     sig, msg = zoo.pick_signature(z.violations)
     counters = {k: v for k, v in z.probes.items()}
     driven_subject = False
